@@ -84,7 +84,7 @@ func wsJobs(seed uint64, n int, o GenOpts, judge string) []Job {
 }
 
 func checkC01(c *Ctx) {
-	n := 1500
+	n := 5000
 	if c.Tier == "thorough" {
 		n = 150000
 	}
@@ -122,7 +122,7 @@ var assumptionsWS = []string{
 // ---------- C02 ----------
 
 func checkC02(c *Ctx) {
-	nTest, nTraffic, nSlow := 900, 300, 300
+	nTest, nTraffic, nSlow := 3000, 1000, 1000
 	maxc := 6
 	if c.Tier == "thorough" {
 		nTest, nTraffic, nSlow = 60000, 20000, 20000
@@ -261,7 +261,7 @@ func checkC11(c *Ctx) {
 		c.Exhaustive = true
 		c.Extra["exhaustive_part"] = "MCC x MNC (1000 x 1100); MSIN digits are sampled"
 	} else {
-		for i := 0; i < 3000; i++ {
+		for i := 0; i < 6000; i++ {
 			jobs = append(jobs, mk(root.Digits(3), root.Digits(2+root.Intn(2)), root, i))
 		}
 	}
@@ -269,7 +269,7 @@ func checkC11(c *Ctx) {
 	// after one NG Setup; some are roamers whose home PLMN differs from the serving PLMN, so that
 	// "the PLMN announced at NG Setup is repeated in every user-location IE" and "the SUCI is the
 	// one of that IMSI" are told apart, and state carried from one UE's identity to the next shows
-	nPS := 400
+	nPS := 1000
 	if c.Tier == "thorough" {
 		nPS = 40000
 	}
@@ -362,7 +362,7 @@ func checkC16(c *Ctx) {
 	c.Rule = "one evaluation = one simulated test-mode run registering a population of N UEs; at every InitialUEMessage the reference AMF checks that the SUPI is new, is initial IMSI + index with the same number of digits and PLMN, that the RAN-UE-NGAP-ID is new, that exactly one ciphering and one integrity algorithm are advertised, and RES*/MAC verify under the configured K and OP/OPc; distinct = distinct (N, IMSI shape) signature; non-trivial = N >= 2"
 	c.Assume = append(c.Assume, assumptionsWS...)
 	pops := []int{1, 2, 3, 10, 100, 300}
-	reps := 120
+	reps := 300
 	if c.Tier == "thorough" {
 		pops = []int{1, 2, 3, 10, 100, 1000, 9999, 10000}
 		reps = 2000
@@ -512,7 +512,7 @@ func shuffleYAML(r *kernel.Rand, c scn.Config) string {
 }
 
 func checkC18(c *Ctx) {
-	nT, nTr, nArg := 700, 300, 200
+	nT, nTr, nArg := 2500, 1000, 700
 	if c.Tier == "thorough" {
 		nT, nTr, nArg = 60000, 30000, 5000
 	}
@@ -545,7 +545,7 @@ func checkC18(c *Ctx) {
 		}
 	})
 	// argument vectors of length 0..3
-	words := []string{"-t", "-x", "", "-T", "t", "--t", "-t ", "-tt", "x"}
+	words := []string{"-t", "-x", "", "-T", "t", "--t", "-t ", "-tt", "x", "-t=true", "-t=1", "-t=false", "-t=0", "--", "-", "-h", "--help", "-test", "--test", "-traffic", "-t=", "--t=true", "-t\t", " -t", "-v", "0", "1", "true"}
 	var argJobs []Job
 	seenArgs := map[string]bool{}
 	for i := 0; i < nArg; i++ {
@@ -658,7 +658,7 @@ func judgeFault(r *Run) []Finding {
 }
 
 func checkC19(c *Ctx) {
-	seeds := 3
+	seeds := 12
 	if c.Tier == "thorough" {
 		seeds = 120
 	}
